@@ -4,7 +4,7 @@
 (* x 2 value types x 2 payloads, under each of the five protocols.            *)
 EXTENDS MySensors
 Alpha == <<
-  Recv_(1, 255, 0, 17, P20), Recv_(2, 255, 0, 18, P22),                     \* node presentations
+  Recv_(1, 255, 0, 17, P20), Recv_(2, 255, 0, 18, P22), Recv_(2, 255, 0, 17, PEmpty),   \* node presentations (one without a version)
   Recv_(1, 0, 0, 6, Pa), Recv_(1, 1, 0, 6, Pa), Recv_(2, 0, 0, 6, Pa),      \* child presentations
   Recv_(1, 0, 0, 7, Pb),                                                    \* re-presentation, other type
   Recv_(1, 1, 0, 99, Pa), Recv_(2, 1, 0, -1, Pb),                            \* sensor types newer / other than any table
